@@ -1,5 +1,7 @@
 (* EsProofs.v — lemmas about the Elasticsearch query builder model (EsCheck.v, EsBuild.v) against the
-   vocabulary of EsSpec.v.  Used by props/C07.v (and C06.v). *)
+   vocabulary of EsSpec.v.  Used by props/C07.v (and C06.v).
+   simplify_if_same is modelled by EsBuild.flattened: only an un-named operand of the operation's own class
+   is spliced (repair of F16), so the leaf lemmas of part E need no guard on names. *)
 Require Import Base Decimal Tree GenTree GenVisitors GenChars Visitor Json EsSpecs EsCheck EsBuild EsSpec
                TreeInd.
 From Coq Require Import Lia.
@@ -426,10 +428,10 @@ Section VisitSpec.
   Variable env : es_env.
 
   Definition flat (par : option cls) (t : item) : bool :=
-    match par with Some p => cls_eqb (cls_of t) p | None => false end.
+    match par with Some p => flattened t p | None => false end.
   Definition parmix (par : option cls) (t : item) : bool :=
     match par with
-    | Some p => negb (cls_eqb (cls_of t) p) && mixes cfg p (cls_of t)
+    | Some p => negb (flattened t p) && mixes cfg p (cls_of t)
     | None => false
     end.
   Definition vmix (par : option cls) (t : item) : bool := mixb cfg t || parmix par t.
@@ -466,9 +468,10 @@ Section VisitSpec.
   Lemma parmix_own t c :
     parmix (Some (cls_of t)) c = match t with Op k _ _ => child_opposite cfg k c | _ => false end.
   Proof.
-    unfold parmix. rewrite mixes_cls.
+    unfold parmix, flattened. rewrite mixes_cls.
     destruct (cls_eqb (cls_of c) (cls_of t)) eqn:He; simpl; [|reflexivity].
-    pose proof (mixes_same_cls cfg t c He) as Hs. rewrite mixes_cls in Hs. symmetry. exact Hs.
+    pose proof (mixes_same_cls cfg t c He) as Hs. rewrite mixes_cls in Hs. rewrite Hs.
+    apply andb_false_r.
   Qed.
 
   Lemma existsb_false {A} (l : list A) : existsb (fun _ => false) l = false.
@@ -515,7 +518,7 @@ Section VisitSpec.
           match par with
           | None => r
           | Some p =>
-              if cls_eqb (cls_of t) p then walk (visit cfg env) (Some p) cx (children t)
+              if flattened t p then walk (visit cfg env) (Some p) cx (children t)
               else if mixes cfg p (cls_of t) then
                      (if Nat.ltb (length (children t)) 2 then RExc (XOther KIndexError) else RExc XMix)
                    else r
@@ -610,10 +613,11 @@ Section VisitSpec.
     (* the enclosing-operation part *)
     intros par cx. destruct (Hnormal cx) as [r [[N1 N2] Hvisit]]. rewrite Hvisit. clear Hvisit.
     unfold vmix, parmix, flat. destruct par as [p|].
-    - destruct (cls_eqb (cls_of t) p) eqn:He; simpl.
+    - destruct (flattened t p) eqn:He; simpl.
       + rewrite orb_false_r.
         assert (Hp : p = cls_of t).
-        { destruct (cls_of t), p; try discriminate; reflexivity. }
+        { unfold flattened in He. apply andb_prop in He as [He _].
+          destruct (cls_of t), p; try discriminate; reflexivity. }
         subst p. destruct (walk_spec (Some (cls_of t)) cx (children t) HV) as [W1 W2].
         rewrite vmix_children in W1, W2. split; [exact W1|].
         intros H. destruct (W2 H) as [its [Hi _]]. exists its. split; [exact Hi|discriminate].
@@ -787,13 +791,16 @@ Proof. destruct r as [[|x [|? ?]]|]; simpl; intros H; inversion H; reflexivity. 
 Lemma propagate_unnamed t cx : named t = false -> propagate_name t cx = cx.
 Proof. unfold named, propagate_name. destruct (name_of t) as [[|? ?]|]; try discriminate; reflexivity. Qed.
 
+Lemma unnamed_not_named t : unnamed t = true -> named t = false.
+Proof. unfold unnamed, named. destruct (name_of t); [discriminate|reflexivity]. Qed.
+
 (* visit in terms of the visit without enclosing operation *)
 Lemma visit_par_form cfg env t par cx :
   visit cfg env t par cx =
   match par with
   | None => visit cfg env t None cx
   | Some p =>
-      if cls_eqb (cls_of t) p then walk (visit cfg env) (Some p) cx (children t)
+      if flattened t p then walk (visit cfg env) (Some p) cx (children t)
       else if mixes cfg p (cls_of t) then
              (if Nat.ltb (length (children t)) 2 then RExc (XOther KIndexError) else RExc XMix)
            else visit cfg env t None cx
@@ -852,54 +859,6 @@ Proof.
   - simpl. rewrite app_nil_r. reflexivity.
 Qed.
 
-(* hereditary guard *)
-Lemma nnf_op_go k l :
-  (fix go (l : list item) : bool :=
-     match l with
-     | [] => true
-     | c :: l' =>
-         no_named_flattened c &&
-         match c with
-         | Op k' _ _ => negb (cls_eqb (cls_of_opk k') (cls_of_opk k) && named c)
-         | _ => true
-         end && go l'
-     end) l = true ->
-  Forall (fun c => no_named_flattened c = true /\
-                   (cls_eqb (cls_of c) (cls_of_opk k) = true -> named c = false)) l.
-Proof.
-  induction l as [|c l IH]; intros H; [constructor|].
-  apply andb_prop in H as [H H3]. apply andb_prop in H as [H1 H2].
-  constructor; [|apply IH; exact H3]. split; [exact H1|]. intros Hc.
-  destruct c; simpl in Hc; try (destruct k; discriminate);
-    try (destruct k0; destruct k; discriminate).
-  simpl in H2. rewrite Hc in H2. simpl in H2. destruct (named (Op k0 m ops)); [discriminate|reflexivity].
-Qed.
-
-Lemma nnf_children t :
-  no_named_flattened t = true ->
-  Forall (fun c => no_named_flattened c = true /\
-                   (is_binary t = true -> cls_eqb (cls_of c) (cls_of t) = true -> named c = false))
-         (children t).
-Proof.
-  destruct t as [k m v|m n e|k m e|m lo hi il ih|m x d i|m x d i|m e f i|k m ops|uk m a|k m a i|m];
-    simpl; intros H.
-  - constructor.
-  - repeat constructor; [exact H|discriminate].
-  - repeat constructor; [exact H|discriminate].
-  - apply andb_prop in H as [H1 H2]. repeat constructor; try assumption; discriminate.
-  - repeat constructor; [exact H|discriminate].
-  - repeat constructor; [exact H|discriminate].
-  - repeat constructor; [exact H|discriminate].
-  - pose proof (nnf_op_go k ops H) as HF. rewrite Forall_forall in *. intros c Hc.
-    destruct (HF c Hc) as [H1 H2]. split; [exact H1|]. intros _. exact H2.
-  - apply andb_prop in H as [H1 H2]. repeat constructor; [exact H1|].
-    intros Hb Hc. destruct uk; try discriminate.
-    destruct a as [[]| |[]| | | | |[]|[]|[]|]; try discriminate.
-    simpl in H2. destruct (named (Unary KPlus m0 a)); [discriminate|reflexivity].
-  - repeat constructor; [exact H|discriminate].
-  - constructor.
-Qed.
-
 Section LeavesSpec.
   Variable cfg : es_config.
   Variable env : es_env.
@@ -909,7 +868,7 @@ Section LeavesSpec.
   Definition W (t : item) : Prop :=
     forall par cx items, par_ok par -> visit cfg env t par cx = ROk items ->
       if flat par t
-      then named t = false -> flat_map eleaves (tag (ekind cfg t) items) = xl cfg env t cx
+      then flat_map eleaves (tag (ekind cfg t) items) = xl cfg env t cx
       else exists e, items = [e] /\ eleaves e = xl cfg env t cx /\ is_leaf e = leafy cfg env t cx.
 
   Lemma walk_none_leaves cx l items :
@@ -927,38 +886,34 @@ Section LeavesSpec.
 
   Lemma walk_some_leaves t cx l items :
     is_binary t = true -> Forall W l ->
-    Forall (fun c => cls_eqb (cls_of c) (cls_of t) = true -> named c = false) l ->
     walk (visit cfg env) (Some (cls_of t)) cx l = ROk items ->
     flat_map eleaves (tag (ekind cfg t) items) =
     flat_map (fun c => tagz (ztq_of_op (ekind cfg t)) (leafy cfg env c cx) (xl cfg env c cx)) l.
   Proof.
-    intros Hb HW. revert items. induction HW as [|c l Hc _ IH]; simpl; intros items Hn H.
+    intros Hb HW. revert items. induction HW as [|c l Hc _ IH]; simpl; intros items H.
     - inversion H. unfold tag. destruct (ztq_of_op (ekind cfg t)); reflexivity.
-    - inversion Hn as [|? ? Hn1 Hn2]; subst.
-      destruct (visit cfg env c (Some (cls_of t)) cx) as [its|] eqn:Hv; [|discriminate].
+    - destruct (visit cfg env c (Some (cls_of t)) cx) as [its|] eqn:Hv; [|discriminate].
       destruct (walk (visit cfg env) (Some (cls_of t)) cx l) as [its'|] eqn:Hw; [|discriminate].
-      inversion H; subst. rewrite tag_app, flat_map_app. rewrite (IH its' Hn2 eq_refl). f_equal.
+      inversion H; subst. rewrite tag_app, flat_map_app. rewrite (IH its' eq_refl). f_equal.
       assert (Hpo : par_ok (Some (cls_of t))).
       { intros p Hp. inversion Hp; subst. rewrite binary_cls_of. exact Hb. }
       specialize (Hc (Some (cls_of t)) cx its Hpo Hv). unfold flat in Hc.
-      destruct (cls_eqb (cls_of c) (cls_of t)) eqn:He.
-      + rewrite (same_cls_ekind cfg t c He) in Hc. rewrite (Hc (Hn1 eq_refl)).
+      destruct (flattened c (cls_of t)) eqn:Hf.
+      + unfold flattened in Hf. apply andb_prop in Hf as [He _].
+        rewrite (same_cls_ekind cfg t c He) in Hc. rewrite Hc.
         rewrite binary_not_leafy by (rewrite (same_cls_binary t c He); exact Hb).
         unfold tagz. destruct (ztq_of_op (ekind cfg t)); reflexivity.
       + destruct Hc as [e [-> [H1 H2]]]. rewrite tag_single, H1, H2. reflexivity.
   Qed.
 
-  Lemma leaves_supported : forall t,
-    supported t = true -> no_named_flattened t = true -> W t.
+  (* since the repair of F16 (simplify_if_same keeps a same-class operand that has a name) no guard on
+     names is needed *)
+  Lemma leaves_supported : forall t, supported t = true -> W t.
   Proof.
-    intros t. induction t as [t IH] using item_children_ind. intros Hs Hn.
+    intros t. induction t as [t IH] using item_children_ind. intros Hs.
     assert (HW : Forall W (children t)).
-    { apply supported_children in Hs as Hs'. apply nnf_children in Hn as Hn'.
-      rewrite Forall_forall in *. intros c Hc. apply IH; [exact Hc|auto|apply Hn'; exact Hc]. }
-    assert (Hnf : is_binary t = true ->
-                  Forall (fun c => cls_eqb (cls_of c) (cls_of t) = true -> named c = false) (children t)).
-    { intros Hb. apply nnf_children in Hn. rewrite Forall_forall in *. intros c Hc.
-      apply (proj2 (Hn c Hc) Hb). }
+    { apply supported_children in Hs as Hs'.
+      rewrite Forall_forall in *. intros c Hc. apply IH; [exact Hc|auto]. }
     clear IH.
     (* without enclosing operation *)
     assert (Hnorm : forall cx items, visit cfg env t None cx = ROk items ->
@@ -970,7 +925,7 @@ Section LeavesSpec.
         destruct (walk (visit cfg env) (Some (cls_of t)) (propagate_name t cx) (children t))
           as [its|] eqn:Hw; [|discriminate].
         inversion Hv; subst. eexists. split; [reflexivity|]. split.
-        + rewrite mk_op_leaves, (walk_some_leaves t _ _ _ Hb HW (Hnf eq_refl) Hw), xl_binary by exact Hb.
+        + rewrite mk_op_leaves, (walk_some_leaves t _ _ _ Hb HW Hw), xl_binary by exact Hb.
           reflexivity.
         + rewrite binary_not_leafy by exact Hb. reflexivity.
       - pose proof (bhandler_cls cfg t) as Hh. rewrite visit_unfold in Hv. unfold visit_via in Hv.
@@ -1040,12 +995,13 @@ Section LeavesSpec.
           rewrite mk_op_leaves, tag_single, H1, H2. reflexivity. }
     (* with an enclosing operation *)
     intros par cx items Hpo Hv. rewrite visit_par_form in Hv. unfold flat. destruct par as [p|].
-    - destruct (cls_eqb (cls_of t) p) eqn:He.
-      + apply cls_eqb_eq in He as Hp. subst p. intros Hun.
+    - destruct (flattened t p) eqn:Hf.
+      + unfold flattened in Hf. apply andb_prop in Hf as [He Hun].
+        apply cls_eqb_eq in He as Hp. subst p.
         assert (Hb : is_binary t = true).
         { rewrite <- (binary_cls_of cfg). apply Hpo. reflexivity. }
-        rewrite (walk_some_leaves t _ _ _ Hb HW (Hnf Hb) Hv), xl_binary by exact Hb.
-        rewrite (propagate_unnamed t cx Hun). reflexivity.
+        rewrite (walk_some_leaves t _ _ _ Hb HW Hv), xl_binary by exact Hb.
+        rewrite (propagate_unnamed t cx (unnamed_not_named t Hun)). reflexivity.
       + destruct (mixes cfg p (cls_of t)).
         * destruct (Nat.ltb (length (children t)) 2); discriminate.
         * apply Hnorm. exact Hv.
@@ -1055,15 +1011,73 @@ End LeavesSpec.
 
 (* the leaf items of the E-tree of a supported tree are the expected ones *)
 Lemma build_etree_leaves cfg t e :
-  supported t = true -> no_named_flattened t = true -> build_etree cfg t = ROk e ->
+  supported t = true -> build_etree cfg t = ROk e ->
   eleaves e = expected_leaves cfg t.
 Proof.
-  intros Hs Hn. unfold build_etree, build_etree_env, expected_leaves.
+  intros Hs. unfold build_etree, build_etree_env, expected_leaves.
   destruct (check_nested (ev_chk (mk_env cfg)) t); [discriminate|].
   destruct (visit cfg (mk_env cfg) t None ctx0) as [its|] eqn:Hv; [|discriminate].
   assert (Hpo : par_ok cfg None) by (intros p Hp; discriminate).
-  pose proof (leaves_supported cfg (mk_env cfg) t Hs Hn None ctx0 its Hpo Hv) as H. simpl in H.
+  pose proof (leaves_supported cfg (mk_env cfg) t Hs None ctx0 its Hpo Hv) as H. simpl in H.
   destruct H as [e1 [-> [H1 _]]]. intros He. inversion He; subst. exact H1.
+Qed.
+
+(* ---- the names of the expected leaves: the element's own name, else that of the nearest named enclosing
+   element *)
+Lemma map_name_map (g : leaf -> leaf) ls :
+  (forall l, l_name (g l) = l_name l) -> map l_name (map g ls) = map l_name ls.
+Proof. intros H. rewrite map_map. apply map_ext. exact H. Qed.
+
+Lemma tagz_names z lf ls : map l_name (tagz z lf ls) = map l_name ls.
+Proof.
+  unfold tagz. destruct z; [|reflexivity]. destruct lf; [|reflexivity].
+  apply map_name_map. reflexivity.
+Qed.
+
+Lemma x_name_propagate t cx : x_name (propagate_name t cx) = pass_down t (x_name cx).
+Proof. unfold propagate_name, pass_down. destruct (name_of t) as [[|? ?]|]; reflexivity. Qed.
+
+Lemma expected_names_op k m ops inh :
+  expected_names (Op k m ops) inh = flat_map (fun c => expected_names c (pass_down (Op k m ops) inh)) ops.
+Proof. exact (op_go_flat_map (fun c => expected_names c (pass_down (Op k m ops) inh)) ops). Qed.
+
+Lemma xl_names cfg env : forall t cx, supported t = true ->
+  map l_name (xl cfg env t cx) = expected_names t (x_name cx).
+Proof.
+  intros t. induction t as [k m v|m n e IH|k m e IH|m lo hi il ih _ _|m x d i IH|m x d i IH|m e f i IH
+                            |k m ops IH|k m a IH|k m a i IH|m] using item_ind'; intros cx Hs.
+  - destruct k; try discriminate; simpl.
+    + reflexivity.
+    + unfold phrase_leaf. destruct (ctx_is_analyzed cfg cx); reflexivity.
+  - simpl. rewrite (IH _ Hs). unfold field_ctx. rewrite x_name_propagate. reflexivity.
+  - simpl. rewrite (IH _ Hs), x_name_propagate. reflexivity.
+  - simpl in Hs. apply andb_prop in Hs as [Hlo Hhi].
+    destruct (range_bound_has_value _ Hlo) as [vlo Hvlo].
+    destruct (range_bound_has_value _ Hhi) as [vhi Hvhi]. simpl. rewrite Hvlo, Hvhi. reflexivity.
+  - simpl. simpl in Hs. destruct (leafy cfg env x _); [rewrite map_name_map by reflexivity|];
+      rewrite (IH _ Hs), x_name_propagate; reflexivity.
+  - simpl. simpl in Hs.
+    destruct (leafy cfg env x _); [rewrite map_name_map by (intros l; destruct (ctx_is_analyzed cfg cx); reflexivity)|];
+      rewrite (IH _ Hs), x_name_propagate; reflexivity.
+  - simpl. simpl in Hs. destruct (leafy cfg env e _); [rewrite map_name_map by reflexivity|];
+      rewrite (IH _ Hs), x_name_propagate; reflexivity.
+  - apply supported_children in Hs as Hc. simpl children in Hc.
+    rewrite xl_binary by reflexivity. simpl children.
+    rewrite (expected_names_op k m ops (x_name cx)), <- x_name_propagate.
+    generalize (propagate_name (Op k m ops) cx) as cx'. intros cx'.
+    generalize (ztq_of_op (ekind cfg (Op k m ops))) as z. intros z. clear Hs.
+    induction IH as [|c l Hc1 _ IHl]; [reflexivity|]. inversion Hc; subst. simpl.
+    rewrite map_app, tagz_names, (Hc1 _ H1). f_equal. apply IHl. exact H2.
+  - simpl in Hs. simpl. rewrite tagz_names, (IH _ Hs), x_name_propagate. reflexivity.
+  - discriminate.
+  - discriminate.
+Qed.
+
+Lemma build_etree_names cfg t e :
+  supported t = true -> build_etree cfg t = ROk e -> map l_name (eleaves e) = expected_names t None.
+Proof.
+  intros Hs He. rewrite (build_etree_leaves cfg t e Hs He). unfold expected_leaves.
+  exact (xl_names cfg (mk_env cfg) t ctx0 Hs).
 Qed.
 
 (* ================================================================ F. the leaf clauses of the JSON *)
@@ -1206,11 +1220,11 @@ End JsonLeaves.
 
 (* the leaf clauses of the generated query are the clauses of the expected leaves *)
 Lemma build_leaves cfg t j :
-  supported t = true -> no_named_flattened t = true -> kinds_not_reserved cfg t = true ->
+  supported t = true -> kinds_not_reserved cfg t = true ->
   build cfg t = ROk j -> Permutation (leaves j) (expected_clauses cfg t).
 Proof.
-  intros Hs Hn Hk. unfold build. destruct (build_etree cfg t) as [e|] eqn:He; [|discriminate].
-  intros Hj. pose proof (build_etree_leaves cfg t e Hs Hn He) as Hl.
+  intros Hs Hk. unfold build. destruct (build_etree cfg t) as [e|] eqn:He; [|discriminate].
+  intros Hj. pose proof (build_etree_leaves cfg t e Hs He) as Hl.
   unfold expected_clauses. rewrite <- Hl. apply ejson_leaves; [exact Hj|].
   rewrite Hl. exact Hk.
 Qed.
